@@ -30,6 +30,7 @@ type c14File struct {
 	Cache           []c14Piece `json:"cache,omitempty"`
 	OnDisk, InCache bool
 	EmptyDisk       bool `json:"emptydisk,omitempty"` // a zero-byte file on disk
+	Removed         bool `json:"removed,omitempty"`   // on disk when the source is registered, deleted before the render
 	Spell           int  `json:"spell,omitempty"`     // how the path given to ParseTemplateAndCache is spelled (1: dir/./name, 2: dir//name, 3: dir/zz/../name)
 }
 
@@ -116,7 +117,7 @@ func (c *c14Case) effective(name string) ([]c14Piece, bool) {
 	if f == nil {
 		return nil, false
 	}
-	if f.OnDisk {
+	if f.OnDisk && !f.Removed {
 		return f.Disk, true
 	}
 	if f.InCache {
@@ -206,6 +207,14 @@ var c14Graph = hx.Define("c14.graph", func(c *c14Case, s *hx.Sub) *hx.Violation 
 		return b
 	}
 	topPath := filepath.Join(dir, "top.html")
+	// files that were on disk when their source was registered and are gone when the template is rendered
+	removeFlagged := func() {
+		for _, f := range c.Files {
+			if f.Removed && f.OnDisk {
+				_ = os.Remove(filepath.Join(dir, f.Name))
+			}
+		}
+	}
 	var got hx.Outcome
 	if c.Late {
 		// the includer is parsed first; sources are registered afterwards and must still be found at render time
@@ -223,10 +232,12 @@ var c14Graph = hx.Define("c14.graph", func(c *c14Case, s *hx.Sub) *hx.Violation 
 					}
 				}
 			}
+			removeFlagged()
 			out, rerr := tpl.RenderString(binds())
 			got.Out, got.Err = out, rerr
 		})
 	} else {
+		removeFlagged()
 		got = hx.RenderAt(eng, top, topPath, 1, binds())
 	}
 	if got.Panic != nil {
@@ -515,7 +526,7 @@ func TestC14(t *testing.T) {
 	}
 
 	g := c14Graph.On(col, "rapid: acyclic include graphs (chains up to depth 4 in the top template's directory, leaves in nested sub-directories and above the directory (../up.html), the same base name in several directories with distinct content; for a third of the cases a second top-level template in the sub-directory d1 is rendered on the same engine afterwards and reaches the same files under other relative names) laid out in a fresh temporary directory per case; every file is independently on disk, only registered through ParseTemplateAndCache, both with different content, zero bytes on disk with cached source, or missing; include arguments spelled as double/single-quoted literals, bound variables, variables assigned earlier in the render and filtered expressions; bodies print bound and includer-assigned variables, loop and branch. Metamorphic oracle: render(T) = render(T with every include replaced, recursively, by the content the statement selects: disk over cache), same path and bindings; a missing file fails the render with no output; an error inside an included template fails both. Non-trivial: an include resolved from a nested directory, from the cache, or with disk and cache disagreeing; distinct by layout", false)
-	texts := []string{"t", " [{{ n }}] ", "{{ s | upcase }}", "{% assign pv = n | plus: 1 %}{{ pv }}", "{% if n == 1 %}one{% else %}other{% endif %}", "{% for q in a %}{{ q }},{% endfor %}", "{{ shared }}", "\n", "{% assign shared = \"set-by-includer\" %}", "{{ 1 | divided_by: n }}", "20% off %d %s%%", "{% raw %}{% if x %}{% endraw %}", "{{ lv }}/{{ lvv }}", "{{ lvv }}",
+	texts := []string{"t", " [{{ n }}] ", "{{ s | upcase }}", "{% assign pv = n | plus: 1 %}{{ pv }}", "{% if n == 1 %}one{% else %}other{% endif %}", "{% for q in a %}{{ q }},{% endfor %}", "{{ shared }}", "\n", "{% assign shared = \"set-by-includer\" %}", "{{ 1 | divided_by: n }}", "20% off %d %s%%", "{% raw %}{% if x %}{% endraw %}", "{{ lv }}/{{ lvv }}", "{{ lvv }}", "{{ include }}",
 		"  "}
 	// whitespace control at the outer edge of a file: the first piece of a file may begin, the last may end, with a hyphenated
 	// tag (facing the file's boundary); an includer has white space next to the include tag, and sometimes a hyphen
@@ -587,6 +598,8 @@ func TestC14(t *testing.T) {
 			case 5, 6, 7, 8, 22: // both, different content
 				f.OnDisk, f.Disk = true, mk(name, next, "/disk")
 				f.InCache, f.Cache = true, mk(name, next, "/cache")
+				// ... and sometimes the file is deleted after the source was registered: the source is what is left
+				f.Removed = rapid.IntRange(0, 3).Draw(t, "removed") == 0
 			case 9, 10: // zero bytes on disk, source in the cache
 				f.OnDisk, f.Disk, f.EmptyDisk = true, []c14Piece{}, true
 				f.InCache, f.Cache = true, mk(name, next, "/cache")
@@ -616,6 +629,10 @@ func TestC14(t *testing.T) {
 		}
 		sort.Slice(c.Files, func(i, j int) bool { return c.Files[i].Name < c.Files[j].Name })
 		c.Top = []c14Piece{genText(t, "top")}
+		if rapid.IntRange(0, 3).Draw(t, "include-var") == 0 {
+			// a variable that happens to be called include
+			c.Top = append(c.Top, c14Piece{Text: "{% assign include = \"mine\" %}"})
+		}
 		for i, n := 0, rapid.IntRange(1, 3).Draw(t, "topincs"); i < n; i++ {
 			target := "a.html"
 			if rapid.Bool().Draw(t, "topleaf") {
